@@ -222,6 +222,14 @@ impl<T> Future for JoinHandle<T> {
     fn poll(self: Pin<&mut Self>, cx: &mut Context<'_>) -> Poll<Self::Output> {
         let mut lock = self.inner.lock().unwrap();
         if let Some(result) = lock.result.take() {
+            // The awaiting task inherits the clock of the finished task, exactly as the joiner does in
+            // `thread::JoinHandle::join`: everything the task did happens before the await returns.
+            let _ = ExecutionState::try_with(|state| {
+                if !state.is_finished() {
+                    let clock = state.get_clock(self.task_id).clone();
+                    state.update_clock(&clock);
+                }
+            });
             Poll::Ready(result)
         } else {
             lock.waker = Some(cx.waker().clone());
